@@ -49,7 +49,7 @@ impl WakerList {
     /// `unsafe fn push(&self, index)` — "Safety: index must be within capacity"
     #[verifier::external_body]
     pub fn push(&mut self, index: usize)
-        //@ [env.push_index_in_capacity: C03,C01]
+        //@ [env.push_index_in_capacity: C03]
         requires index < old(self).cap(),
         ensures final(self).same_but_known(old(self)), final(self).known() == old(self).known().insert(index),
     { unimplemented!() }
